@@ -11,7 +11,7 @@ from hypothesis import strategies as st
 FAMILIES = [
     "alpha-fixed", "alpha-shrink", "alpha-optcomp", "bet-fixed", "bet-agrapa",
     "kk", "km", "kw", "sprt-fin", "sprt-inf",
-    "alpha-fixed-inf", "alpha-shrink-inf", "bet-fixed-inf", "bet-agrapa-inf",
+    "alpha-fixed-inf", "alpha-shrink-inf", "bet-fixed-inf", "bet-agrapa-inf", "alpha-optcomp-inf",
 ]
 EPS = 2.0 ** -52
 
